@@ -5,7 +5,7 @@ from .family import Family
 from .srv import SrvFamily
 from .fe import FeFamily
 
-PROPS_MODULES = ["C08", "ConnLoops", "C03"]
+PROPS_MODULES = ["C08", "ConnLoops", "C03", "ErrClass"]
 RULE = ("family `srv` (frame mode): every implemented request type, written by the raw peer in 2 and 3 segments at every/sampled split "
         "points, byte by byte, and in random segmentations, both with all segments queued before the server reads and with one "
         "segment arriving at a time (the next is written only when the receive queue is empty); every cut offset 0..len of a message "
